@@ -1,5 +1,7 @@
 import SdxProofs.TreeLemmas
 import SdxProofs.TreeInv
+import SdxProofs.PushDown
+import SdxProofs.ForestLemmas
 import Props.C02
 import Props.C17
 import Mathlib.Data.Rat.Floor
@@ -268,6 +270,99 @@ theorem C18_branch_entities_unique (E : Env α) (c : FCtx α) (root : List (Ival
     simp only [nonNullRows, List.countP_map]
     exact hsub.countP_le _
   omega
+
+/-! ## The 1-dim root push-down (outliers folded into the edge leaf) -/
+
+/-- T18.c (global)  folding one outlier row into a 1-dim tree: whenever `_add_1dim_outlier_row` returns (no `KeyError`),
+the invariant with exempt set `out` is kept, exactly that row is added, and identity and tight range of the node are
+unchanged. -/
+theorem C18_fold_outlier (E : Env α) (c : FCtx α) (root : List (Ival α)) (out : List Nat) (fuel : Nat) (t : Node α)
+    (row : Nat) (t' : Node α) (hT : TInvO E c root out t) (hr : row ∈ out) (h : addOutlier c fuel t row = some t') :
+    TInvO E c root out t' ∧ t'.allRows.Perm (t.allRows ++ [row]) ∧ SameId t t' ∧ t'.data.actual = t.data.actual :=
+  addOutlier_inv E c root out fuel t row t' hT hr h
+
+/-- T18.c (global)  `push_down_1dim_root` on the 1-dim tree `add_row` built: the new root holds exactly the rows of the
+old one (nothing lost, nothing twice), satisfies the invariant with an exempt set `out`, its range is nested in the old
+root range, and every exempt row lies beyond the final root range (below its lower end, or at/above its upper end). -/
+theorem C18_push_down_invariant (E : Env α) (c : FCtx α) (root : List (Ival α)) (fuel : Nat) (t t' : Node α)
+    (hT : TInv E c root t) (h1 : t.data.comb.length = 1) (hnd : t.allRows.Nodup)
+    (hord : (rootIv t).lo ≤ (rootIv t).hi) (h : pushDown E c fuel t = some t') :
+    ∃ out, TInvO E c root out t' ∧ t'.allRows.Perm t.allRows ∧ t'.data.comb = t.data.comb ∧
+      NestedIn (rootIv t') (rootIv t) ∧ (rootIv t').lo ≤ (rootIv t').hi ∧
+      ∀ r ∈ out, r ∈ t'.allRows ∧ Outside (rootIv t') (c.value r (t.data.comb.getD 0 0)) :=
+  pushDown_inv E c root fuel t t' hT h1 hnd hord h
+
+/-- T18  the 1-dim tree of column `j` as `Forest.__init__` builds it (insert every row, then push the root down):
+it holds every input row exactly once; every node satisfies the invariant; rows are exempt from the value clauses
+only if they lie beyond the final root range. -/
+theorem C18_tree1_invariant (E : Env α) (c : FCtx α) (rl : Int) (j : Nat) (seed : UInt64) (iv : Ival α)
+    (hiv : iv.lo ≤ iv.hi) (hn : 0 < c.data.size) (t' : Node α)
+    (h : (buildRows E c rl (mkLeaf E c [j] [] seed [] [iv] 0)).bind (pushDown E c 4000) = some t') :
+    ∃ out, TInvO E c [iv] out t' ∧ t'.allRows.Perm (List.range c.data.size) ∧ t'.data.comb = [j] ∧
+      NestedIn (rootIv t') iv ∧
+      ∀ r ∈ out, r ∈ t'.allRows ∧ Outside (rootIv t') (c.value r j) := by
+  simp only [Option.bind_eq_some_iff] at h
+  obtain ⟨t, hb, hp⟩ := h
+  obtain ⟨hT, hperm, hsn, hcomb⟩ := C18_tree_invariant E c rl [j] seed [] [iv] rfl hn t hb
+  have hroot : rootIv t = iv := by unfold rootIv; rw [hsn]; rfl
+  obtain ⟨out, hTO, hp', hc', hnest, _, hout⟩ := pushDown_inv E c [iv] 4000 t t' hT (by rw [hcomb]; rfl)
+    (hperm.nodup_iff.mpr List.nodup_range) (by rw [hroot]; exact hiv) hp
+  refine ⟨out, hTO, hp'.trans hperm, hc'.trans hcomb, by rw [← hroot]; exact hnest, ?_⟩
+  intro r hr
+  have := hout r hr
+  rw [hcomb] at this
+  exact this
+
+/-- T18.d/e (global, pushed-down trees)  in every node of a pushed-down tree, every held row that is not exempt lies in
+the node's range (when inside the original root range), and the tight range is the hull of the non-exempt rows. -/
+theorem C18_pushed_down_nodes (E : Env α) (c : FCtx α) (root : List (Ival α)) (out : List Nat) (t n : Node α)
+    (hT : TInvO E c root out t) (hs : Node.Sub n t) :
+    (∀ r ∈ n.allRows, r ∉ out → RowInside c root n.data r) ∧
+    (∀ j < n.data.comb.length, HullOf (n.data.actual.getD j default)
+      ((inRows out n.allRows).map fun r => c.value r (n.data.comb.getD j 0))) := by
+  have := TInvO.sub hs hT
+  cases this with
+  | leaf d s rows hN =>
+    exact ⟨fun r hr ho => hN.inside r (mem_inRows.mpr ⟨by simpa [Node.allRows_leaf] using hr, ho⟩),
+      fun j hj => by have := hN.hull j hj; simpa [Node.allRows_leaf, Node.data] using this⟩
+  | branch d s ch hN hB hC =>
+    exact ⟨fun r hr ho => hN.inside r (mem_inRows.mpr ⟨hr, ho⟩), fun j hj => by have := hN.hull j hj; simpa [Node.data] using this⟩
+
+/-! ## The forest: every tree `Forest` hands out -/
+
+/-- T18  whenever `Forest.__init__` finishes, the tree it keeps for every single column holds every row exactly once and
+satisfies the invariant relative to the column's snapped range, with exemptions only for rows beyond the final
+(pushed-down) root range, which is nested in the column's snapped range. -/
+theorem C18_forest_trees1 (E : Env α) (inp : ForestIn α) (F : Forest α) (h : Forest.init E inp = .ok F)
+    (hn : 0 < inp.raw.size) (j : Nat) (hj : j < F.trees1.length) :
+    ∃ out, TInvO E F.ctx [F.rootSnapped0.getD j default] out (F.trees1[j]) ∧
+      (F.trees1[j]).allRows.Perm (List.range F.ctx.data.size) ∧ (F.trees1[j]).data.comb = [j] ∧
+      NestedIn (rootIv (F.trees1[j])) (F.rootSnapped0.getD j default) ∧
+      ∀ r ∈ out, r ∈ (F.trees1[j]).allRows ∧ Outside (rootIv (F.trees1[j])) (F.ctx.value r j) := by
+  obtain ⟨hl1, hl0, hprop, hsize, ht⟩ := forest_init_trees1 E inp F h
+  have hjs : j < F.rootSnapped0.length := by rw [hl0, ← hl1]; exact hj
+  have hiv : (F.rootSnapped0.getD j default).lo ≤ (F.rootSnapped0.getD j default).hi := by
+    have : F.rootSnapped0.getD j default = F.rootSnapped0[j] := by simp [List.getD_eq_getElem?_getD, hjs]
+    rw [this]; exact le_of_lt (hprop _ (List.getElem_mem hjs))
+  have := ht j hj
+  simp only [tree1] at this
+  exact C18_tree1_invariant E F.ctx _ j _ _ hiv (by rw [hsize]; exact hn) _ this
+
+/-- T18  whenever `Forest.get_tree` returns a tree for a combination of two or more columns, that tree holds every row
+exactly once and satisfies the invariant relative to the (pushed-down) ranges of its columns. -/
+theorem C18_forest_tree (E : Env α) (F : Forest α) (fuel : Nat) (comb : List Nat) (t : Node α) (hk : 2 ≤ comb.length)
+    (hn : 0 < F.ctx.data.size) (h : F.tree? E fuel comb = some t) :
+    TInv E F.ctx (comb.map fun j => F.snapped.getD j default) t ∧ t.allRows.Perm (List.range F.ctx.data.size) ∧
+      t.data.comb = comb := by
+  cases fuel with
+  | zero => simp [Forest.tree?] at h
+  | succ fuel =>
+    rw [Forest.tree?] at h
+    · split at h
+      · cases h
+      · obtain ⟨hT, hp, _, hc⟩ := C18_tree_invariant E F.ctx 0 comb _ _ _ (by simp) hn t h
+        exact ⟨hT, hp, hc⟩
+    · intro j hj; rw [hj] at hk; simp at hk
 
 /-- Non-vacuity of the invariant's premises: the root leaf `Forest` starts from satisfies `TInv`, and every row may be
 handed to a root (so `C18_add_row_invariant` applies to the first insertion, and by its conclusion to every later one). -/
